@@ -135,7 +135,7 @@ PinnedInv == Done => G2(g, ConstsOf(g, ch), HashOf(g, ch), row)
 CountInv == Done => G3(g, ConstsOf(g, ch), HashOf(g, ch), row)
 LayoutInv == (ch = <<>>) => LayoutOK(g)
 \* joint uniqueness where the search space P^|pinned| stays small
-UniqMax == IF P <= 5 THEN 4 ELSE IF P <= 7 THEN 3 ELSE 2
+UniqMax == IF P <= 5 THEN 4 ELSE 3
 UniqueInv == (Done /\ Len(Pinned(g)) <= UniqMax) => G2s(g, ConstsOf(g, ch), HashOf(g, ch), row)
 
 \* ---------------------------------------------------------------- degree
